@@ -29,7 +29,7 @@ MANIFEST = {
     'technique': 'explicit-state BFS over operation histories (register / overwrite / rejected register / remove method / serve a request) on '
                  'the real Ombott application; every reached method-table state probed with all request methods x paths '
                  'against a reference dispatch model',
-    'text': 'All histories up to depth 3 (quick) / 5 (thorough) over a menu of 38 operations (registrations, removals, served requests) on two rules are replayed on '
+    'text': 'All histories up to depth 3 (quick) / 5 (thorough) over a menu of 42 operations (registrations, removals, served requests) on two rules are replayed on '
             'fresh applications; each distinct method-table state is probed with 8 request methods x 5 paths and compared '
             'with the reference (handler, status, exact Allow); rejected registrations must not change the state.',
     'note': 'Bounds: 2 editable rules + 1 static, handler identities A/B, depth as stated. Trusted: the reference model here.',
@@ -51,6 +51,9 @@ def menu():
         for meth in METHODS:
             m.append(('rm', r, meth))
         m.append(('rmm', r, 'GET'))
+        # several verbs removed by one call (some of them possibly not registered)
+        m.append(('rml', r, ('HEAD', 'GET', 'POST')))
+        m.append(('rml', r, ('PUT', 'ANY')))
     # serving a request is an operation too: it must not change how later requests are dispatched
     for meth, path in (('GET', '/x'), ('HEAD', '/x'), ('POST', '/x'), ('PUT', '/x'), ('HEAD', '/x/1'), ('POST', '/x/1')):
         m.append(('req', path, meth))
@@ -149,6 +152,10 @@ class Model:
             return True if kind == 'rm' else None      # removing from an unregistered rule: nothing to do
         if kind == 'rmm' and op[2] not in tab:
             return None
+        if kind == 'rml':
+            for m in op[2]:
+                tab.pop(m, None)
+            return True
         tab.pop(op[2], None)
         return True
 
@@ -207,6 +214,9 @@ def apply_real(app, op):
             return 'none'
         if kind == 'rm':
             route.remove_method(op[2])
+            return 'ok'
+        if kind == 'rml':
+            route.remove_method(list(op[2]))
             return 'ok'
         try:
             rm = route[op[2]]
